@@ -80,6 +80,23 @@ Theorem C20_mul128_refuted :
   exists u v, wf128 u /\ wf128 v /\ W * W <= val128 u * val128 v /\ u128_mul u v <> Panic.
 Proof. exact u128_mul_refuted. Qed.
 
+Theorem C20_mul256 : forall u v, wf256 u -> wf256 v ->
+  (val256 u * val256 v < W4 ->
+     exists r, u256_mul u v = Ok r /\ wf256 r /\ val256 r = val256 u * val256 v) /\
+  (W4 <= val256 u * val256 v -> u256_mul u v = Panic).
+Proof. exact u256_mul_exact. Qed.
+
+(** division: total (the fuel of the model always suffices) and exact *)
+Theorem C20_div256 : forall u v, wf256 u -> wf256 v -> val256 v <> 0 ->
+  exists q, u256_div u v = Ok q /\ wf256 q /\ val256 q = val256 u / val256 v.
+Proof. exact u256_div_exact. Qed.
+Theorem C20_quorem128_64 : forall u v, wf128 u -> inW v -> v <> 0 ->
+  exists q r, u128_quorem64 u v = Ok (q, r) /\ wf128 q /\ val128 q = val128 u / v /\ r = val128 u mod v.
+Proof. exact u128_quorem64_exact. Qed.
+Theorem C20_div256_orig_refuted :
+  exists u v, wf256 u /\ wf256 v /\ val256 v <> 0 /\ u256_div_orig u v = OutOfFuel.
+Proof. exact u256_div_orig_refuted. Qed.
+
 (** comparisons are the order of the values *)
 Theorem C20_cmp64 : forall a b, u64_cmp a b = match a ?= b with Lt => -1 | Eq => 0 | Gt => 1 end.
 Proof. exact u64_cmp_spec. Qed.
@@ -129,6 +146,10 @@ Print Assumptions C20_mul128_64.
 Print Assumptions C20_mul128_partial.
 Print Assumptions C20_mul128_wraps_only_by_high_product.
 Print Assumptions C20_mul128_refuted.
+Print Assumptions C20_mul256.
+Print Assumptions C20_div256.
+Print Assumptions C20_quorem128_64.
+Print Assumptions C20_div256_orig_refuted.
 Print Assumptions C20_cmp64.
 Print Assumptions C20_cmp128.
 Print Assumptions C20_cmp128_64.
